@@ -90,6 +90,31 @@ conv_int!(i8f_i128, FixedI8, i8, true, i128, i128::MIN, i128::MAX);
 conv_int!(u8f_usize, FixedU8, u8, false, usize, usize::MIN, usize::MAX);
 conv_int!(i8f_isize, FixedI8, i8, true, isize, isize::MIN, isize::MAX);
 
+// bool -> fixed (impl ToFixed for bool): the value 0 or 1, all four non-panicking policies, every 8-bit layout
+macro_rules! conv_bool {
+    ($name:ident, $Fx:ident, $FT:ty, $fsigned:expr) => {
+        #[cfg(kani)]
+        #[kani::proof]
+        pub fn $name() {
+            let b: bool = kani::any();
+            let f = any_frac8();
+            with_frac8!(f, F => {
+                let fx = |v: i128| $Fx::<F>::from_bits(v as $FT);
+                let (fmin, fmax): (i128, i128) = if $fsigned { (-128, 127) } else { (0, 255) };
+                let r: i128 = if b { 1i128 << f } else { 0 };
+                let fits = r >= fmin && r <= fmax;
+                let wrapped = if $fsigned { ((r as u128) as i8) as i128 } else { ((r as u128) as u8) as i128 };
+                assert!($Fx::<F>::overflowing_from_num(b) == (fx(wrapped), !fits));
+                assert!($Fx::<F>::wrapping_from_num(b) == fx(wrapped));
+                assert!($Fx::<F>::saturating_from_num(b) == fx(if fits { r } else { fmax }));
+                assert!($Fx::<F>::checked_from_num(b) == if fits { Some(fx(r)) } else { None });
+            });
+        }
+    };
+}
+conv_bool!(i8f_bool, FixedI8, i8, true);
+conv_bool!(u8f_bool, FixedU8, u8, false);
+
 // cross-width conversions at fixed layouts: r = floor(a * 2^fd / 2^fs) against the destination range
 macro_rules! convx {
     ($name:ident, $S:ident, $ST:ty, $FS:ident, $fs:expr, $D:ident, $DT:ty, $FD:ident, $fd:expr) => {
